@@ -49,7 +49,8 @@ DET_UNITS = {"quick": 6, "thorough": 12}
 DET_FRESH = {"quick": 3, "thorough": 6}
 MINIMISE = {"max_runs": 30, "max_seconds": 60.0}
 HERE = os.path.dirname(os.path.abspath(__file__))
-BIAS = ("bias_branch_stores", "bias_tuple_set", "bias_loop_stores", "bias_nested_frames", "bias_many_filters_tests", "bias_macro_special")
+BIAS = ("bias_branch_stores", "bias_tuple_set", "bias_loop_stores", "bias_nested_frames", "bias_many_filters_tests", "bias_macro_special",
+        "bias_namespace_tuple_set")
 
 
 def _worker(job: dict, hashseed: str) -> dict:
@@ -79,10 +80,22 @@ def run(tape: Tape) -> Outcome:
         for name, src in sorted(P.templates.items()):
             if cfg["i18n"] and name == "main":
                 src += "{% trans a=n1, b=n2, c=s1 %}x {{ a }} {{ b }} {{ c }}{% pluralize a %}y {{ b }}{% endtrans %}"
+                # free variables inside the block (not declared in the tag): the extension registers them itself
+                free = g._names(2, 5)
+                src += "{% trans %}" + " ".join("{{ %s }}" % n for n in free) + "{% endtrans %}"
+                src += ("{% trans count=n1 %}" + " ".join("{{ %s }}" % n for n in free[:2]) + " {{ count }}{% pluralize %}"
+                        + " ".join("{{ %s }}" % n for n in reversed(free)) + "{% endtrans %}")
+                out.count("templates_with_i18n_free_variables")
             cid = len(corpus)
             corpus.append({"id": cid, "name": name, "source": src, "cfg": cfg})
             if biased:
                 nontrivial_ids.add(cid)
+        if tape.draw(3) == 2:
+            # a template whose compilation FAILS while macro parameter defaults are emitted (process history for later compiles)
+            pn = [f"{tape.pick(['x', 'p', 'k', 'i', 'wi'])}{1 + tape.draw(12)}" for _ in range(3)]
+            bad = "{% macro mq(" + ", ".join(f"{n}=1|nosuchfilter{j}" for j, n in enumerate(dict.fromkeys(pn))) + ") %}{% endmacro %}"
+            corpus.append({"id": len(corpus), "name": "bad", "source": bad, "cfg": cfg})
+            out.count("failing_compile_templates")
         for b in BIAS:
             if P.features.get(b):
                 out.count("templates_sets_with_" + b)
